@@ -38,6 +38,7 @@ struct Prim {
   bool flag = false;
   int n = 0;
   // expectations, computed against the logical model before execution
+  bool expect_reject = false;                     // ADD_FACE_HE / ADD_CELL with topology check on invalid input
   int expect_existing = -1;                       // ADD_EDGE
   std::vector<std::pair<int, bool>> facev_edges;  // ADD_FACE_V: (edge uid, is_new)
   std::vector<int> closure_e, closure_f, closure_c;  // DELETE
@@ -79,6 +80,7 @@ enum OpCode {
   O_SWAP_V, O_SWAP_E, O_SWAP_F, O_SWAP_C,
   O_GC, O_CLEAR, O_EN_VBU, O_EN_EBU, O_EN_FBU, O_EN_DEFERRED, O_EN_FAST,
   O_PROP_CREATE, O_PROP_WRITE, O_PROP_DROP, O_QUERY, O_STATUS_MARK, O_STATUS_GC,
+  O_ADD_RING, O_TRY_FACE, O_TRY_CELL,
   O_COUNT_
 };
 
@@ -92,7 +94,8 @@ inline const std::vector<OpInfo> &poly_optable() {
       {"collect_garbage", 0}, {"clear", 1}, {"enable_vbu", 1}, {"enable_ebu", 1}, {"enable_fbu", 1},
       {"enable_deferred", 1}, {"enable_fast", 1},
       {"prop_create", 4}, {"prop_write", 3}, {"prop_drop", 1}, {"query", 5},
-      {"status_mark_deleted", 2}, {"status_garbage_collection", 5}};
+      {"status_mark_deleted", 2}, {"status_garbage_collection", 5},
+      {"add_ring", 5}, {"try_add_face", 5}, {"try_add_cell", 5}};
   return t;
 }
 
@@ -117,6 +120,7 @@ struct Interp {
   std::vector<std::unique_ptr<Sut>> suts;
   std::map<int, Vec3d> pos;  // expected position per live vertex uid
   std::set<int> marks[4];    // status-marked (deleted) live entities per kind
+  std::vector<char> checked_face;  // per face uid: built from a vertex list or accepted with topology check, not modified since
   Stats *st = nullptr;
   bool allow_set = true;       // set_edge/set_face/set_cell allowed in this target
   bool allow_selfloop = true;
@@ -265,6 +269,7 @@ struct Interp {
       for (auto h : p.hes) hs.push_back(s.heh(h));
       int nbefore = (int)m.n_faces();
       FaceHandle h = m.add_face(hs, p.flag);
+      if (p.expect_reject) { expect_handle(s, p, h.idx(), -1, "add_face(halfedges, check) on an invalid loop"); break; }
       expect_handle(s, p, h.idx(), nbefore, "add_face(halfedges)");
       s.lay.push(KF, p.u);
       break;
@@ -274,6 +279,7 @@ struct Interp {
       for (auto h : p.hfs) hs.push_back(s.hfh(h));
       int nbefore = (int)m.n_cells();
       CellHandle h = m.add_cell(hs, p.flag);
+      if (p.expect_reject) { expect_handle(s, p, h.idx(), -1, "add_cell(halffaces, check) on an invalid surface"); break; }
       expect_handle(s, p, h.idx(), nbefore, "add_cell");
       s.lay.push(KC, p.u);
       break;
@@ -419,12 +425,16 @@ struct Interp {
       for (size_t i = 0; i < p.facev_edges.size(); ++i)
         if (p.facev_edges[i].second) L.E.push_back({p.vs[i], p.vs[(i + 1) % p.vs.size()], true});
       L.F.push_back({p.hes, true});
+      checked_face.push_back(true);
       break;
     }
-    case P_ADD_FACE_HE: L.F.push_back({p.hes, true}); break;
-    case P_ADD_CELL: L.C.push_back({p.hfs, true}); break;
-    case P_SET_EDGE: L.E[(size_t)p.u].from = p.vs[0]; L.E[(size_t)p.u].to = p.vs[1]; break;
-    case P_SET_FACE: L.F[(size_t)p.u].hes = p.hes; break;
+    case P_ADD_FACE_HE: if (!p.expect_reject) { L.F.push_back({p.hes, true}); checked_face.push_back(p.flag); } break;
+    case P_ADD_CELL: if (!p.expect_reject) L.C.push_back({p.hfs, true}); break;
+    case P_SET_EDGE:
+      L.E[(size_t)p.u].from = p.vs[0]; L.E[(size_t)p.u].to = p.vs[1];
+      for (size_t f = 0; f < L.F.size(); ++f) if (L.face_has_edge((int)f, p.u)) checked_face[f] = false;
+      break;
+    case P_SET_FACE: L.F[(size_t)p.u].hes = p.hes; checked_face[(size_t)p.u] = false; break;
     case P_SET_CELL: L.C[(size_t)p.u].hfs = p.hfs; break;
     case P_DELETE:
       for (int c : p.closure_c) L.C[(size_t)c].alive = false;
@@ -435,7 +445,7 @@ struct Interp {
       if (p.kind == KF) L.F[(size_t)p.u].alive = false;
       if (p.kind == KC) L.C[(size_t)p.u].alive = false;
       break;
-    case P_CLEAR: L.clear(); pos.clear(); for (auto &m : marks) m.clear(); break;
+    case P_CLEAR: L.clear(); pos.clear(); checked_face.clear(); for (auto &m : marks) m.clear(); break;
     case P_STATUS_MARK: marks[p.kind].insert(p.u); break;
     case P_STATUS_GC:
       for (int c : p.victims[KC]) L.C[(size_t)c].alive = false;
@@ -720,6 +730,7 @@ struct Interp {
     }
     case O_ADD_FACE_V: {
       int k = 2 + a[0] % 4;
+      if (a[0] >= 208) k = 5 + a[0] % 4;  // occasionally faces of valence up to 8
       if (a[0] % 16 == 15 && allow_selfloop) k = 1;
       auto vsl = pick_vertices(k, a[1], a[2], a[3] % 8 != 0 || !allow_selfloop);
       if (vsl.empty()) { count("skip:no_vertex"); return true; }
@@ -742,6 +753,9 @@ struct Interp {
       return prim_add_face_he(hes, a[4] & 1, f);
     }
     case O_ADD_CELL_TPL: return op_add_cell_tpl(a);
+    case O_ADD_RING: return op_add_ring(a);
+    case O_TRY_FACE: return op_try_face(a);
+    case O_TRY_CELL: return op_try_cell(a);
     case O_ADD_CONE: return op_add_cone(a);
     case O_SET_EDGE: {
       if (!allow_set) return true;
@@ -867,6 +881,171 @@ struct Interp {
     }
   }
 
+  // acceptance predicate of add_cell(.., check): every halfedge of the halffaces occurs exactly once and so does its opposite
+  static bool closed_surface(const Logical &L, const std::vector<HFu> &hfs) {
+    if (hfs.empty()) return false;
+    std::map<std::pair<int, int>, int> cnt;
+    for (auto h : hfs) for (auto he : L.hf_hes(h)) cnt[{he.e, he.s}]++;
+    for (auto &kv : cnt) {
+      if (kv.second != 1) return false;
+      auto it = cnt.find({kv.first.first, kv.first.second ^ 1});
+      if (it == cnt.end() || it->second != 1) return false;
+    }
+    return true;
+  }
+
+  // C11: add_face(halfedges, check=true) on a perturbed loop
+  bool op_try_face(const int *a) {
+    std::vector<HEu> hes;
+    auto lf = L.live(KF);
+    if (!lf.empty() && a[0] % 4 != 0) hes = L.hf_hes(HFu{lf[(size_t)a[1] % lf.size()], a[1] / 64 & 1});
+    else {
+      auto vsl = pick_vertices(2 + a[1] % 3, a[2], a[3], true);
+      for (size_t i = 0; i < vsl.size() && vsl.size() >= 2; ++i) {
+        auto ex = L.live_edges_between(vsl[i], vsl[(i + 1) % vsl.size()]);
+        if (ex.empty()) { hes.clear(); break; }
+        hes.push_back(he_dir(ex[(size_t)a[4] % ex.size()], vsl[i]));
+      }
+    }
+    auto le = L.live(KE);
+    if (le.empty()) { count("skip:no_entity"); return true; }
+    const char *what = "as is";
+    switch (a[2] % 9) {
+    case 0: hes.clear(); what = "empty"; break;
+    case 1: if (!hes.empty()) { hes.erase(hes.begin() + a[3] % (int)hes.size()); what = "one dropped"; } break;
+    case 2: if (!hes.empty()) { auto h = hes[(size_t)a[3] % hes.size()]; hes.insert(hes.begin() + a[4] % (int)hes.size(), h); what = "one doubled"; } break;
+    case 3: if (!hes.empty()) { hes[(size_t)a[3] % hes.size()] = HEu{le[(size_t)a[4] % le.size()], a[4] / 128}; what = "one replaced"; } break;
+    case 4: if (!hes.empty()) { hes[(size_t)a[3] % hes.size()].s ^= 1; what = "one reversed"; } break;
+    case 5: if (!hes.empty()) { std::rotate(hes.begin(), hes.begin() + a[3] % (int)hes.size(), hes.end()); what = "rotated"; } break;
+    case 6: { std::reverse(hes.begin(), hes.end()); for (auto &h : hes) h.s ^= 1; what = "opposite orientation"; break; }
+    case 7: if (hes.size() > 2) { std::swap(hes[0], hes[1 + (size_t)a[3] % (hes.size() - 1)]); what = "two exchanged"; } break;
+    default: break;
+    }
+    Prim p; p.t = P_ADD_FACE_HE; p.hes = hes; p.flag = true; p.u = (int)L.F.size();
+    p.expect_reject = !closed_loop(L, hes);
+    std::ostringstream o;
+    o << "try add_face[he";
+    for (auto h : hes) o << " e" << h.e << (h.s ? "'" : "");
+    o << ",check] (" << what << ") expect " << (p.expect_reject ? "reject" : "accept->f" + std::to_string(p.u));
+    p.render = o.str();
+    count(p.expect_reject ? "try_face_expect_reject" : "try_face_expect_accept");
+    return step(p);
+  }
+
+  // C11: add_cell(halffaces, check=true) on a perturbed closed surface made of free halffaces
+  bool op_try_cell(const int *a) {
+    // start from the halffaces of a template over existing vertices (creating missing faces), never adding the cell itself
+    const auto &tpls = templates();
+    const Template &T = tpls[(size_t)a[0] % 4];
+    auto vsl = pick_vertices(T.nv, a[1], a[2], true);
+    if ((int)vsl.size() < T.nv) { count("skip:no_vertex"); return true; }
+    std::map<std::pair<int, int>, int> emap;
+    for (auto &fc : T.faces)
+      for (size_t i = 0; i < fc.size(); ++i) {
+        int x = vsl[(size_t)fc[i]], y = vsl[(size_t)fc[(i + 1) % fc.size()]];
+        auto key = std::make_pair(std::min(x, y), std::max(x, y));
+        if (emap.count(key)) continue;
+        int e;
+        if (!edge_for(x, y, 0, false, e)) return fail.empty();
+        emap[key] = e;
+      }
+    std::vector<HFu> hfs;
+    for (auto &fc : T.faces) {
+      std::vector<HEu> cyc;
+      for (size_t i = 0; i < fc.size(); ++i) {
+        int x = vsl[(size_t)fc[i]], y = vsl[(size_t)fc[(i + 1) % fc.size()]];
+        cyc.push_back(he_dir(emap[std::make_pair(std::min(x, y), std::max(x, y))], x));
+      }
+      HFu h;
+      if (find_free_halfface(cyc, h)) { hfs.push_back(h); continue; }
+      int f;
+      if (!prim_add_face_he(cyc, true, f)) return false;
+      hfs.push_back(HFu{f, 0});
+    }
+    std::vector<HFu> free;
+    for (size_t f = 0; f < L.F.size(); ++f)
+      if (L.F[f].alive) for (int s = 0; s < 2; ++s) if (L.hf_free(HFu{(int)f, s})) free.push_back(HFu{(int)f, s});
+    const char *what = "as is";
+    switch (a[3] % 9) {
+    case 0: hfs.clear(); what = "empty"; break;
+    case 1: hfs.erase(hfs.begin() + a[4] % (int)hfs.size()); what = "one dropped"; break;
+    case 2: hfs.push_back(hfs[(size_t)a[4] % hfs.size()]); what = "one doubled"; break;
+    case 3: hfs[(size_t)a[4] % hfs.size()] = free[(size_t)(a[4] / 8) % free.size()]; what = "one replaced"; break;
+    case 4: hfs[(size_t)a[4] % hfs.size()].s ^= 1; what = "one flipped"; break;
+    case 5: std::rotate(hfs.begin(), hfs.begin() + a[4] % (int)hfs.size(), hfs.end()); what = "rotated"; break;
+    case 6: for (auto &h : hfs) h.s ^= 1; what = "all flipped"; break;
+    case 7: std::swap(hfs[0], hfs[1 + (size_t)a[4] % (hfs.size() - 1)]); what = "two exchanged"; break;
+    default: break;
+    }
+    for (auto h : hfs) if (!L.hf_free(h)) { count("skip:try_cell_occupied"); return true; }
+    Prim p; p.t = P_ADD_CELL; p.hfs = hfs; p.flag = true; p.u = (int)L.C.size();
+    p.expect_reject = !closed_surface(L, hfs);
+    std::ostringstream o;
+    o << "try add_cell[";
+    for (auto h : hfs) o << " f" << h.f << (h.s ? "'" : "");
+    o << ",check] (" << what << ") expect " << (p.expect_reject ? "reject" : "accept->c" + std::to_string(p.u));
+    p.render = o.str();
+    count(p.expect_reject ? "try_cell_expect_reject" : "try_cell_expect_accept");
+    return step(p);
+  }
+
+  // k tets around a common edge, inserted in a generated order; closed ring or open fan
+  bool op_add_ring(const int *a) {
+    int k = 3 + a[0] % 4;
+    bool closed = (a[1] % 3) != 0;
+    auto ab = pick_vertices(2, a[2], a[3], true);
+    std::vector<int> vsl = ab;
+    while (vsl.size() < 2 + (size_t)k + (closed ? 0 : 1)) {
+      if (L.n_live(KV) >= max_vertices) { count("skip:max_vertices"); return true; }
+      int before = (int)L.V.size();
+      if (!prim_add_vertex(true)) return false;
+      vsl.push_back(before);
+    }
+    int A = vsl[0], B = vsl[1];
+    std::vector<int> ring(vsl.begin() + 2, vsl.end());
+    int ntets = closed ? k : k;  // open fan: k tets over k+1 ring vertices
+    std::vector<int> order((size_t)ntets);
+    for (int i = 0; i < ntets; ++i) order[(size_t)i] = i;
+    // generated insertion order: a multiplicative shuffle derived from the op arguments
+    for (int i = ntets - 1; i > 0; --i) std::swap(order[(size_t)i], order[(size_t)((a[4] * 31 + i * 17 + a[0]) % (i + 1))]);
+    for (int idx : order) {
+      int r0 = ring[(size_t)idx], r1 = ring[(size_t)(idx + 1) % ring.size()];
+      int tv[4] = {A, B, r0, r1};
+      const Template &T = templates()[0];
+      std::map<std::pair<int, int>, int> emap;
+      for (auto &fc : T.faces)
+        for (size_t i = 0; i < fc.size(); ++i) {
+          int x = tv[fc[i]], y = tv[fc[(i + 1) % fc.size()]];
+          auto key = std::make_pair(std::min(x, y), std::max(x, y));
+          if (emap.count(key)) continue;
+          int e;
+          if (!edge_for(x, y, 0, false, e)) return fail.empty();
+          emap[key] = e;
+        }
+      std::vector<HFu> hfs;
+      for (auto &fc : T.faces) {
+        std::vector<HEu> cyc;
+        for (size_t i = 0; i < fc.size(); ++i) {
+          int x = tv[fc[i]], y = tv[fc[(i + 1) % fc.size()]];
+          cyc.push_back(he_dir(emap[std::make_pair(std::min(x, y), std::max(x, y))], x));
+        }
+        HFu h;
+        if (find_free_halfface(cyc, h)) { hfs.push_back(h); continue; }
+        int f;
+        if (!prim_add_face_he(cyc, false, f)) return false;
+        hfs.push_back(HFu{f, 0});
+      }
+      bool dup = false;
+      for (size_t i = 0; i < hfs.size(); ++i) for (size_t j = i + 1; j < hfs.size(); ++j) if (hfs[i] == hfs[j]) dup = true;
+      if (dup) { count("skip:ring_repeats_halfface"); continue; }
+      int c;
+      if (!prim_add_cell(hfs, a[1] & 1, c)) return false;
+      count("cells_built");
+    }
+    count(closed ? "rings_closed" : "fans_open");
+    return true;
+  }
+
   bool op_add_cell_tpl(const int *a) {
     const auto &tpls = templates();
     const Template &T = tpls[(size_t)a[0] % tpls.size()];
@@ -933,6 +1112,7 @@ struct Interp {
       for (size_t j = i + 1; j < hes.size(); ++j)
         if (hes[i].e == hes[j].e) { count("skip:base_degenerate"); return true; }
     auto bv = L.hf_vertices(base);
+    { auto sv = bv; std::sort(sv.begin(), sv.end()); if (std::unique(sv.begin(), sv.end()) != sv.end()) { count("skip:base_degenerate"); return true; } }
     int apex = -1;
     if (a[1] % 3 != 0) {
       auto l = L.live(KV);
